@@ -7,7 +7,7 @@
 #include <unistd.h>
 
 __thread TaskCtx *g_task = nullptr;
-char g_cur_op_kind[32] = "";
+__thread char g_cur_op_kind[32] = "";
 
 static const char kCallerTag[] = "CALLER";
 
